@@ -267,6 +267,7 @@ class Sim:
             pre["regions"] = self.regions()
             pre["model"] = self.model_snapshot()
             pre["acq"] = self.acq_table(S, P, U)
+            pre["pred_var"] = self.pred_var() if "C07" in self.props else None
             if self.sc["algo"] == "VOGP_AD":
                 ds = a.design_space
                 pre["n_points"] = len(ds.points)
@@ -627,6 +628,21 @@ class Sim:
             return {"kind": "multi", "X": m.train_inputs.numpy().copy(), "Y": m.train_targets.numpy().copy()}
         return None
 
+    def pred_var(self):
+        """Posterior variances (N, m) of a real GP model at all design points (None otherwise)."""
+        a = self.a
+        m = getattr(a, "model", None)
+        if m is None or self.stub is not None or hasattr(m, "design_samples") or not hasattr(m, "train_inputs"):
+            return None
+        pts = a.design_space.points if hasattr(a, "design_space") else a.points
+        if len(pts) < 2:
+            return None
+        try:
+            _, cov = m.predict(np.asarray(pts, float))
+            return np.diagonal(np.asarray(cov, float), axis1=-2, axis2=-1).copy()
+        except Exception:
+            return None
+
     def acq_table(self, S, P, U):
         """Acquisition values recomputed by the harness from the pre-phase state."""
         a = self.a
@@ -752,6 +768,19 @@ class Sim:
                         self.violate("C07", "not-acquisition-maximiser", {"chosen": got, "best_left_out": max(rest), "queried": [str(k) for k in keys]})
                     if len(set(round(v, 12) for v in vals.values())) < len(vals):
                         self.ctx.probes["acq_ties"] += 1
+        # --- the observations reached the model: its posterior at a just-sampled design tightened --
+        pv0 = pre.get("pred_var")
+        if pv0 is not None and rows and self.stub is None and algo != "VOGP_AD":
+            pv1 = self.pred_var()
+            if pv1 is not None and pv1.shape == pv0.shape:
+                self.judge("C07", "committed")
+                for di, oi, _ in rows:
+                    objs = range(pv0.shape[1]) if oi is None else [oi]
+                    if any(not (pv1[di, o] < pv0[di, o] * (1 - 1e-12)) and pv0[di, o] > 1e-300 for o in objs):
+                        self.violate("C07", "observations-not-committed-to-the-model", {"design": di, "objective": oi, "var_before": pv0[di].tolist(), "var_after": pv1[di].tolist()})
+                        break
+        if self.stub is not None and rows and self.stub.pending != 0:
+            self.violate("C07", "observations-not-committed-to-the-model", {"pending_add_sample_calls": int(self.stub.pending)})
         # --- rows appended to the model are exactly the returned observations ---------------
         post = self.model_snapshot()
         mp = pre["model"]
